@@ -2200,6 +2200,21 @@ def r153(ctx, repo):
            node=hn, label="section head", nontrivial=False)
 
     _unique_id_rule(ctx, repo)
+    # reader and writer open the file with the same text encoding
+    encs = {}
+    for nm_, fn_ in (("save", save), ("_load", load)):
+        ops = [c_ for c_ in walk(fn_) if isinstance(c_, ast.Call) and (
+            last_attr(c_) == "open") and "io." not in (call_name(c_) or "")]
+        if not ops:
+            raise AnalysisError(f"PolygonFilter.{nm_}: file open not found")
+        encs[nm_] = sorted({txt(kwarg(c_, "encoding")) for c_ in ops})
+    ok = encs["save"] == encs["_load"] and len(encs["save"]) == 1
+    ctx.ob("R15.3", ok,
+           f"save and _load open the file with the same encoding "
+           f"({encs['save'][0]})" if ok else
+           f"save opens the file with encoding {encs['save']}, _load with "
+           f"{encs['_load']}: names with non-ASCII characters come back "
+           "garbled", node=load, label="same text encoding")
 
     # ---- lines split at the first '=' only
     spl = [c for c in find_calls(load, attr="split")
@@ -2480,7 +2495,7 @@ def run(ctx):
              minimum=25)
     ctx.rule("R15.3", "save/_load agree on keys, attribute mapping, header "
              "and index parsing, first-'=' split; >= 17 significant digits",
-             minimum=29)
+             minimum=30)
     r151(ctx, repo)
     r152(ctx, repo)
     r153(ctx, repo)
@@ -2666,6 +2681,11 @@ MUTANTS = [
     ("arrays digested in memory order (seeded C15_13)", "dclab/util.py",
      ("        return obj.tobytes()\n",
       "        return obj.tobytes(order=\"A\")\n"), "R15.2"),
+    ("reader decodes latin-1, writer writes the default (seeded C15_18)",
+     POLY,
+     ('        with filename.open("r", errors="replace") as fd:',
+      '        with filename.open("r", encoding="latin-1") as fd:'),
+     "R15.3"),
     ("inversion result discarded", POLY,
      ("            np.invert(f, f)\n", "            np.invert(f)\n"),
      "R15.2"),
